@@ -191,7 +191,7 @@ func VerifHarness_C12_frames() {
 	stream, msgs := c12Stream(wrongLen)
 	B := verifConc(ndInt("bigBufferLen", 1, 2+2*verifTier()))
 	k := verifConc(ndInt("chunk", 1, len(stream)))
-	ref := &parser{reader: &c12Uniform{data: stream, k: len(stream)}}
+	ref := &parser{reader: &c12Uniform{data: stream, k: len(stream)}, bigBuffer: make([]byte, 96)}
 	fa, ea := c12Drain(ref, 2)
 	p := &parser{reader: &c12Uniform{data: stream, k: k, eofWithData: ndBool("eof-with-last-chunk")}, bigBuffer: make([]byte, B)}
 	fb, eb := c12Drain(p, 2)
@@ -218,7 +218,7 @@ func VerifHarness_C12_cuts() {
 	c1 := verifConc(ndInt("cut1", 1, len(stream)))
 	c2 := verifConc(ndInt("cut2", 1, len(stream)-c1+1))
 	B := verifConc(ndInt("bigBufferLen", 1, 1+verifTier()))
-	ref := &parser{reader: &c12Uniform{data: stream, k: len(stream)}}
+	ref := &parser{reader: &c12Uniform{data: stream, k: len(stream)}, bigBuffer: make([]byte, 96)}
 	fa, ea := c12Drain(ref, 1)
 	p := &parser{reader: &c12Chunked{data: stream, sizes: []int{c1, c2}}, bigBuffer: make([]byte, B)}
 	fb, eb := c12Drain(p, 1)
@@ -230,7 +230,7 @@ func VerifHarness_C12_any() {
 	n := verifBound(10, 13)
 	stream := ndBytes("s", n)
 	k := verifConc(ndInt("chunk", 1, 3))
-	ref := &parser{reader: &c12Uniform{data: stream, k: n}}
+	ref := &parser{reader: &c12Uniform{data: stream, k: n}, bigBuffer: make([]byte, 96)}
 	fa, ea := c12Drain(ref, 1)
 	p := &parser{reader: &c12Uniform{data: stream, k: k}, bigBuffer: make([]byte, 2)}
 	fb, eb := c12Drain(p, 1)
